@@ -440,3 +440,36 @@ pub fn lzma2_max_compressed_chunk(seed: u64) -> Option<(Vec<u8>, Vec<u8>)> {
     }
     None
 }
+
+/// An in-memory `Read + Seek` source that fails after a budget of read/seek calls: a reader that loops on it
+/// without making progress ends with an error instead of hanging the engine.
+#[allow(dead_code)]
+pub struct BudgetCursor {
+    pub inner: std::io::Cursor<Vec<u8>>,
+    pub left: u64,
+}
+#[allow(dead_code)]
+impl BudgetCursor {
+    pub fn new(data: Vec<u8>, budget: u64) -> Self {
+        BudgetCursor { inner: std::io::Cursor::new(data), left: budget }
+    }
+    fn spend(&mut self) -> std::io::Result<()> {
+        if self.left == 0 {
+            return Err(std::io::Error::other("call-budget-exhausted"));
+        }
+        self.left -= 1;
+        Ok(())
+    }
+}
+impl std::io::Read for BudgetCursor {
+    fn read(&mut self, buf: &mut [u8]) -> std::io::Result<usize> {
+        self.spend()?;
+        self.inner.read(buf)
+    }
+}
+impl std::io::Seek for BudgetCursor {
+    fn seek(&mut self, pos: std::io::SeekFrom) -> std::io::Result<u64> {
+        self.spend()?;
+        self.inner.seek(pos)
+    }
+}
